@@ -107,13 +107,58 @@ static int gen_scenario (int nwait, int rounds, int use_signal) {
 	for (i = 1; i <= nwait; i++) pthread_join (w[i], NULL);
 	return 0;
 }
+/* ---- first-use scenario (not logged): every round uses a FRESH condition variable.  The main thread issues a signal without holding the mutex
+ * (legal, and a no-op if nobody waits yet) at about the moment the waiter makes the first wait on that object; then it sets the predicate under the
+ * mutex and signals once.  The waiter must return (5 s watchdog).  Whatever an implementation sets up lazily on first use is raced here. */
+static PCondVariable *volatile f_cv; static volatile int f_round, f_done, f_flag, f_quit;
+static void *fresh_waiter (void *arg) {
+	int r = 0; (void) arg;
+	for (;;) {
+		while (__atomic_load_n (&f_round, __ATOMIC_SEQ_CST) == r && !f_quit) ;
+		if (f_quit) break;
+		r = __atomic_load_n (&f_round, __ATOMIC_SEQ_CST);
+		p_mutex_lock (mx);
+		while (!f_flag) p_cond_variable_wait (f_cv, mx);
+		f_flag = 0;
+		p_mutex_unlock (mx);
+		__atomic_store_n (&f_done, r, __ATOMIC_SEQ_CST);
+	}
+	return NULL;
+}
+static int fresh_scenario (int rounds, int use_broadcast) {
+	pthread_t w; int r; unsigned s = 12345;
+	pthread_create (&w, NULL, fresh_waiter, NULL);
+	for (r = 1; r <= rounds; r++) {
+		PCondVariable *c = p_cond_variable_new (); volatile int spin; int d; double t0;
+		if (!c) return 3;
+		f_cv = c;
+		__atomic_store_n (&f_round, r, __ATOMIC_SEQ_CST);
+		s = s * 1103515245u + 12345u; d = (int) ((s >> 16) % 3000);
+		for (spin = 0; spin < d; spin++) ;
+		if (use_broadcast) p_cond_variable_broadcast (c); else p_cond_variable_signal (c);          /* nobody may be waiting yet: no effect required */
+		p_mutex_lock (mx); f_flag = 1; p_mutex_unlock (mx);
+		if (use_broadcast) p_cond_variable_broadcast (c); else p_cond_variable_signal (c);
+		t0 = now ();
+		while (__atomic_load_n (&f_done, __ATOMIC_SEQ_CST) != r) {
+			if (now () - t0 > 5.0) { fprintf (stderr, "LOST-WAKEUP round %d: the waiter of a fresh condition variable did not return although its predicate was set and signalled\n", r); fflush (NULL); _exit (4); }
+			if (now () - t0 > 0.001) sched_yield ();
+		}
+		p_cond_variable_free (c);
+	}
+	f_quit = 1; pthread_join (w, NULL);
+	return 0;
+}
 int main (int argc, char **argv) {
 	int i, ep; pthread_t th[32];
 	if (argc < 6) return 2;
 	base = argv[2];
 	p_libsys_init (); p_libsys_shutdown (); p_libsys_init ();      /* the library is used after a shutdown / re-initialisation cycle */
 	mx_ab[0] = mx = p_mutex_new (); mx_ab[1] = p_mutex_new (); cv = p_cond_variable_new ();
-	if (!strcmp (argv[1], "gen")) {
+	if (!strcmp (argv[1], "fresh")) {
+		vtm_init (1); vtm_open (base, 0);
+		VTM ("\"e\":\"Epoch\",\"cell\":0");
+		fresh_scenario (atoi (argv[5]), !strcmp (argv[4], "broadcast"));
+	} else if (!strcmp (argv[1], "gen")) {
 		vtm_init (1); vtm_open (base, 0);
 		VTM ("\"e\":\"Epoch\",\"cell\":0");
 		gen_scenario (atoi (argv[3]), atoi (argv[5]), !strcmp (argv[4], "signal"));
